@@ -60,9 +60,111 @@ fn interrupt(kind: u8, var: usize) {
     }
 }
 
+/// Another thread, running while this thread is paused between two steps of its
+/// own `register`: it registers an action for the same signal (it can only do
+/// so while the writer mutex is free - the shim cuts the path otherwise) and a
+/// delivery then observes the registry.
+#[allow(non_snake_case)]
+pub mod O {
+    pub static mut ran: bool = false;
+    pub static mut d1: [u8; 4] = [0; 4]; // what the observing delivery ran
+    pub static mut n1: usize = 0;
+}
+fn interrupt_other_thread_registers(kind: u8, var: usize) {
+    // the other thread's register() needs the writer mutex: it can only complete
+    // at points where this thread does not hold it
+    if skip_point(kind, var) || reg::data_mutex_locked() || !vshim::is_nth_point() {
+        return;
+    }
+    vshim::consume_interrupt();
+    unsafe {
+        let r = ok(register(SA, || hit(8)));
+        if r.is_none() {
+            N::bad = true;
+        }
+        O::ran = true;
+        let l0 = L::n;
+        deliver(SA);
+        let mut i = 0;
+        while i < 4 {
+            if l0 + i < L::n && l0 + i < NLOG {
+                O::d1[i] = L::log[l0 + i];
+                O::n1 = i + 1;
+            }
+            i += 1;
+        }
+    }
+}
+
 #[cfg(kani)]
 pub mod proofs {
     use super::*;
+
+    /// register() on this thread, with a complete register() + delivery of another
+    /// thread at every point of it at which the writer mutex is free (enumerated:
+    /// the point index is a concrete loop counter): registration order = the order
+    /// in which registrations took effect.  Whatever the observing delivery ran
+    /// stays an in-order prefix of what a later delivery runs: an action published
+    /// later never slips in front of one that was already running.
+    #[kani::proof]
+    #[kani::unwind(12)]
+    pub fn c02_enum_register_vs_register() {
+        const MAXP: usize = 9;
+        let mut all_points = false;
+        let mut before_effect = false;
+        let mut after_effect = false;
+        let mut p = 0;
+        while p <= MAXP {
+            reg::reset_globals();
+            clear_log();
+            unsafe {
+                K::disp[SA as usize].handler = libc::SIG_DFL;
+                K::disp[SA as usize].flags = 0;
+                O::ran = false;
+                O::n1 = 0;
+                N::bad = false;
+            }
+            let base = ok(unsafe { register(SA, || hit(1)) });
+            assert!(base.is_some(), "C02: registering a catchable signal failed");
+            arm_filter();
+            unsafe { vshim::HOOKS.interrupt = interrupt_other_thread_registers };
+            vshim::enumerate(if p == MAXP { usize::MAX - 1 } else { p }, usize::MAX - 1);
+            vshim::set_mode_nest(1, 1, 0);
+            let r = ok(unsafe { register(SA, || hit(7)) });
+            vshim::set_mode_seq();
+            assert!(r.is_some() && !unsafe { N::bad }, "C02: registering a catchable signal failed");
+            if p == MAXP {
+                all_points = vshim::points_seen() < MAXP;
+            }
+            let l0 = unsafe { L::n };
+            deliver(SA);
+            unsafe {
+                let n2 = L::n - l0;
+                assert!(n2 == if O::ran { 3 } else { 2 }, "C02: a delivery after all registrations returned does not run every registered action exactly once");
+                let mut i = 0;
+                let mut prefix = true;
+                while i < 4 {
+                    if i < O::n1 && l0 + i < NLOG && L::log[l0 + i] != O::d1[i] {
+                        prefix = false;
+                    }
+                    i += 1;
+                }
+                assert!(prefix, "C02: actions do not run in the order they were registered (an action registered later ran in front of one an earlier delivery had already run)");
+                if O::ran && O::n1 == 2 {
+                    before_effect = true;
+                }
+                if O::ran && O::n1 == 3 {
+                    after_effect = true;
+                }
+            }
+            p += 1;
+        }
+        kani::cover!(all_points, "the enumeration bound exceeds the number of points of register() at which the writer mutex is free");
+        kani::cover!(before_effect, "the other thread registered before this thread's registration took effect");
+        // (there is no interruption point after the mutex has been released, so the
+        // other thread never registers after this thread's registration took effect)
+        assert!(!after_effect || before_effect, "harness: unexpected point after the critical section");
+    }
 
     fn setup(na: usize) -> (u128, u128) {
         reg::init_globals();
